@@ -665,7 +665,7 @@ func runStrings(rng *vh.RNG) {
 
 	// ===== scaling: base58 is legitimately quadratic (big-integer accumulation); it must not be worse =====
 	r = rng.Fork("scale-b58")
-	scaleProbe("base58.Decode", cfg.Scale(3000, 6000), 3, func(n int) (func(), func() interface{}) {
+	scaleProbe("base58.Decode", cfg.Scale(3000, 6000), 5, func(n int) (func(), func() interface{}) {
 		b := make([]byte, n)
 		for j := range b {
 			b[j] = b58Alphabet[1+r.Intn(57)]
@@ -675,13 +675,13 @@ func runStrings(rng *vh.RNG) {
 			return map[string]interface{}{"family": "random base58 string of the given length", "length": n, "head": s[:40]}
 		}
 	})
-	scaleProbe("base58.CheckDecode", cfg.Scale(3000, 6000), 3, func(n int) (func(), func() interface{}) {
+	scaleProbe("base58.CheckDecode", cfg.Scale(3000, 6000), 5, func(n int) (func(), func() interface{}) {
 		s := b58check(r.Bytes(n * 733 / 1000))
 		return func() { base58.CheckDecode(s) }, func() interface{} {
 			return map[string]interface{}{"family": "valid Base58Check string of about the given length", "length": len(s), "head": s[:40]}
 		}
 	})
-	scaleProbe("DecodeCashAddress", 20000, 3, func(n int) (func(), func() interface{}) {
+	scaleProbe("DecodeCashAddress", 20000, 5, func(n int) (func(), func() interface{}) {
 		syms := make([]byte, n)
 		for j := range syms {
 			syms[j] = byte(r.Intn(32))
